@@ -38,18 +38,18 @@ type LObs struct {
 }
 
 type LStep struct {
-	Op      string  `json:"op"` // start finish timeout play update_blind pause close release setup reserve leave
-	Blind   *TBlind `json:"blind,omitempty"`
-	Pre     LObs    `json:"pre"`
-	Events  []LObs  `json:"events"`
-	Post    LObs    `json:"post"`
-	Closed  bool    `json:"hand_closed"` // the hand reached settlement within this step
-	Wedged  bool    `json:"wedged"`
-	OptAnte int64   `json:"opt_ante"`   // options of the last CreateGame
-	OptD    int64   `json:"opt_dealer"`
-	OptSB   int64   `json:"opt_sb"`
-	OptBB   int64   `json:"opt_bb"`
-	SetupN  int     `json:"setup_n,omitempty"`
+	Op       string  `json:"op"` // start finish timeout play update_blind pause close release setup reserve leave
+	Blind    *TBlind `json:"blind,omitempty"`
+	Pre      LObs    `json:"pre"`
+	Events   []LObs  `json:"events"`
+	Post     LObs    `json:"post"`
+	Closed   bool    `json:"hand_closed"` // the hand reached settlement within this step
+	Wedged   bool    `json:"wedged"`
+	OptAnte  int64   `json:"opt_ante"` // options of the last CreateGame
+	OptD     int64   `json:"opt_dealer"`
+	OptSB    int64   `json:"opt_sb"`
+	OptBB    int64   `json:"opt_bb"`
+	SetupN   int     `json:"setup_n,omitempty"`
 	InCreate *TBlind `json:"update_inside_create_game,omitempty"` // a blind update issued from inside the backend's CreateGame
 }
 
@@ -65,9 +65,9 @@ type LCase struct {
 }
 
 type lifeRun struct {
-	d      *Drv
-	ids    map[string]int
-	c      *LCase
+	d   *Drv
+	ids map[string]int
+	c   *LCase
 }
 
 func (lr *lifeRun) obsOfTable(t *pt.Table, src string) LObs {
@@ -390,6 +390,10 @@ func runLife(opt Opts) error {
 		for i := 0; i < opt.N; i++ {
 			cases = append(cases, genLife(root, i, opt.Seed))
 		}
+	}
+	if ij, err := json.Marshal(cases); err == nil {
+		os.MkdirAll(opt.Out, 0o755)
+		os.WriteFile(opt.Out+"/inputs.json", ij, 0o644)
 	}
 	var wg sync.WaitGroup
 	sem := make(chan struct{}, 24)
